@@ -1,4 +1,5 @@
 import OnlVerif.Lemmas.TimerFire
+import OnlVerif.Props.C19K
 /-!
 # C19 — a Timer fires exactly at its expiry, and stop/restart always take effect
 
@@ -172,7 +173,7 @@ theorem never_raises (t0 T : ℚ) (auto : Bool) (a : ArgSpec) :
     exact ⟨s0, h0, fun acts e => run_no_raise e (create_inv h0)⟩
   · intro hT
     unfold create
-    rw [zero_eq, if_pos hT]
+    rw [Timer.zero_eq, if_pos hT]
 
 /-! ### non-vacuity: concrete admissible histories (exact arithmetic) -/
 
@@ -181,7 +182,7 @@ def ex0 : State ℚ :=
   { now := 0, timeout := 1, expire := 1, start := 0, stopped := false, auto := false, args := [7],
     procs := [.notStarted], proc := 0, uq := [.init 0] }
 
-example : create (0 : ℚ) 1 false (.scalar 7) = .ok ex0 := by simp [create, ex0, normArgs, zero_eq]
+example : create (0 : ℚ) 1 false (.scalar 7) = .ok ex0 := by simp [create, ex0, normArgs, Timer.zero_eq]
 
 /-- undisturbed: fires once at 1 with `[7]`; the clock may then go on (`fires_at_expiry` with `post = []`) -/
 example : outsOf (run ex0 [.init 0, .tick (1/2), .tick 1, .wake 0 [], .tick 3]) = some [.fire 1 [7]] := by
@@ -221,7 +222,7 @@ def ex1 : State ℚ :=
     procs := [.notStarted], proc := 0, uq := [.init 0] }
 
 example : create (2 : ℚ) (1/2) true (.list [1, 2]) = .ok ex1 := by
-  simp [create, ex1, normArgs, zero_eq]; norm_num
+  simp [create, ex1, normArgs, Timer.zero_eq]; norm_num
 
 example : outsOf (run ex1 [.init 0, .tick (5/2), .wake 0 [], .tick 3, .wake 0 [], .tick (7/2), .wake 0 [.stop],
     .tick 4, .wake 0 [], .tick 10]) = some [.fire (5/2) [1, 2], .fire 3 [1, 2], .fire (7/2) [1, 2]] := by
@@ -232,5 +233,97 @@ middle process is delivered after its `Initialize` -/
 example : outsOf (run ex1 [.restart 1, .restart 2, .init 0, .intr 0, .init 1, .intr 1, .init 2, .tick 4, .wake 2 []])
     = some [.fire 4 [1, 2]] := by
   unfold ex1; timer_eval
+
+/-! ### the link to the kernel model (`OnlVerif/Props/C19K.lean`)
+
+The admissibility rules of this LTS (URGENT events before any wake and before the clock moves; a wake exactly at its due
+instant) were so far *assumed* of the kernel.  `OnlVerif/Util/TimerOnK.lean` writes `Timer.run/stop/restart` and a
+controller process as a program of the kernel model `K`; `Props/C19K.lean` proves that every kernel step of that program
+is a sequence of actions this LTS accepts, and that the callback fires exactly when the property prescribes.  The headline
+theorems are restated here so that the axiom audit covers them, and theorems of this file are transferred to kernel
+runs through the refinement. -/
+
+/-- **The Timer processes on the kernel model refine this LTS**: every kernel state reachable from the initial state
+(timer created at 0 with a positive timeout, a controller process that calls `stop()`/`restart(τ)` by a script, a callback
+that may call them too) is the image, under the executable abstraction function `TimerOnK.absTimer`, of an action sequence
+this LTS accepts from the state `create` builds, with the `fire` observations of the kernel trace as its outputs. -/
+theorem timer_on_kernel_refines_lts (auto : Bool) (arg : Int) (cbs : List (Option (CbOp ℚ))) (ctlFirst : Bool) (T : ℚ)
+    (script : List (ℚ × CbOp ℚ)) (hT : 0 < T) (hsc : TimerK.ScriptOK script) (hcbs : TimerK.CbsOK cbs) (fuel : Nat)
+    (s : KState ℚ (TSt ℚ))
+    (hreach : KReach (TimerOnK.body auto arg cbs) (fuel + 1) (TimerOnK.initState ctlFirst T script) s) :
+    ∃ s0 acts, create (0 : ℚ) T auto (.scalar arg) = .ok s0 ∧
+      run s0 acts = .ok (TimerOnK.absTimer auto arg s) ((TimerOnK.firesOf s.trace).map fun t => Out.fire t [arg]) :=
+  C19K.timer_on_kernel_refines_lts auto arg cbs ctlFirst T script hT hsc hcbs fuel s hreach
+
+/-- **Every kernel step is accepted by this LTS**: the next kernel step of a reachable state ends normally (`.ok`), and
+is a (possibly empty) action sequence this LTS accepts from the abstraction of the state before to the abstraction of the
+state after, with the step's `fire` observations as outputs. -/
+theorem timer_on_kernel_step_refines (auto : Bool) (arg : Int) (cbs : List (Option (CbOp ℚ))) (ctlFirst : Bool) (T : ℚ)
+    (script : List (ℚ × CbOp ℚ)) (hT : 0 < T) (hsc : TimerK.ScriptOK script) (hcbs : TimerK.CbsOK cbs) (fuel : Nat)
+    (s s' : KState ℚ (TSt ℚ))
+    (hreach : KReach (TimerOnK.body auto arg cbs) (fuel + 1) (TimerOnK.initState ctlFirst T script) s)
+    (hstep : (_root_.step (TimerOnK.body auto arg cbs) (fuel + 1) s).state? = some s') :
+    _root_.step (TimerOnK.body auto arg cbs) (fuel + 1) s = .ok s' ∧
+    ∃ acts new, run (TimerOnK.absTimer auto arg s) acts =
+        .ok (TimerOnK.absTimer auto arg s') (new.map fun t => Out.fire t [arg]) ∧
+      TimerOnK.firesOf s'.trace = TimerOnK.firesOf s.trace ++ new :=
+  C19K.timer_on_kernel_step_refines auto arg cbs ctlFirst T script hT hsc hcbs fuel s s' hreach hstep
+
+/-- **The callback fires exactly at the prescribed instants on the kernel model, and nothing raises**: at every state
+reachable by kernel steps the next `Environment.step` ends normally or finds the agenda empty; the call/fire history of
+the trace passes the C19 oracle `TimerOnK.ostep` (a firing exactly at the pending instant: `timeout` after creation, after
+the previous firing of an auto-restart timer; `τ` after a `restart(τ)`; none after `stop()`; no call finds a firing
+overdue); nothing is overdue now, and nothing is pending once the agenda is empty. -/
+theorem timer_on_kernel_fire_instants (auto : Bool) (arg : Int) (cbs : List (Option (CbOp ℚ))) (ctlFirst : Bool) (T : ℚ)
+    (script : List (ℚ × CbOp ℚ)) (hT : 0 < T) (hsc : TimerK.ScriptOK script) (hcbs : TimerK.CbsOK cbs) (fuel : Nat)
+    (s : KState ℚ (TSt ℚ))
+    (hreach : KReach (TimerOnK.body auto arg cbs) (fuel + 1) (TimerOnK.initState ctlFirst T script) s) :
+    ((∃ s', _root_.step (TimerOnK.body auto arg cbs) (fuel + 1) s = .ok s') ∨
+      _root_.step (TimerOnK.body auto arg cbs) (fuel + 1) s = .empty) ∧
+    ∃ o, TimerOnK.orun auto cbs (TimerOnK.o0 T) (TimerOnK.histOf s.trace) = some o ∧
+      (∀ e, o.pending = some e → s.now ≤ e) ∧ (s.agenda = [] → o.pending = none) :=
+  C19K.timer_on_kernel_fire_instants auto arg cbs ctlFirst T script hT hsc hcbs fuel s hreach
+
+/-- **A one-shot timer's run on the kernel model ends with nothing pending**: with `auto_restart = False`, `run()` returns
+(no exception, agenda empty) within `6·(controller calls) + (length of the callback script) + 6` kernel steps; the call/fire
+history of the final trace passes the oracle and leaves nothing pending — every prescribed firing has happened, exactly at
+its instant, and there was no other. -/
+theorem timer_on_kernel_one_shot_returns (arg : Int) (cbs : List (Option (CbOp ℚ))) (ctlFirst : Bool) (T : ℚ)
+    (script : List (ℚ × CbOp ℚ)) (hT : 0 < T) (hsc : TimerK.ScriptOK script) (hcbs : TimerK.CbsOK cbs) (fuel n : Nat)
+    (hn : 6 * script.length + cbs.length + 6 ≤ n) :
+    ∃ sF o, runAll (TimerOnK.body false arg cbs) (fuel + 1) n (TimerOnK.initState ctlFirst T script) = .returned .none sF ∧
+      sF.agenda = [] ∧ TimerOnK.orun false cbs (TimerOnK.o0 T) (TimerOnK.histOf sF.trace) = some o ∧ o.pending = none :=
+  C19K.timer_on_kernel_one_shot_returns arg cbs ctlFirst T script hT hsc hcbs fuel n hn
+
+/-- **`fire_instants_strictly_increase` transferred to kernel runs**: at every reachable kernel state the callback
+invocations recorded in the trace happened at strictly increasing, non-negative instants (no expiry fires twice). -/
+theorem kernel_run_fire_instants_strictly_increase (auto : Bool) (arg : Int) (cbs : List (Option (CbOp ℚ)))
+    (ctlFirst : Bool) (T : ℚ) (script : List (ℚ × CbOp ℚ)) (hT : 0 < T) (hsc : TimerK.ScriptOK script)
+    (hcbs : TimerK.CbsOK cbs) (fuel : Nat) (s : KState ℚ (TSt ℚ))
+    (hreach : KReach (TimerOnK.body auto arg cbs) (fuel + 1) (TimerOnK.initState ctlFirst T script) s) :
+    (TimerOnK.firesOf s.trace).Pairwise (· < ·) ∧ ∀ t ∈ TimerOnK.firesOf s.trace, 0 ≤ t := by
+  obtain ⟨s0, acts, hc, hr⟩ := timer_on_kernel_refines_lts auto arg cbs ctlFirst T script hT hsc hcbs fuel s hreach
+  obtain ⟨h1, h2⟩ := fire_instants_strictly_increase 0 T auto (.scalar arg) s0 hc acts _ _ hr
+  have hm : ((TimerOnK.firesOf s.trace).map fun t => Out.fire t [arg]).map Out.time = TimerOnK.firesOf s.trace := by
+    rw [List.map_map]
+    exact List.map_id' _
+  rw [hm] at h1
+  refine ⟨h1, ?_⟩
+  intro t ht
+  obtain ⟨t', h3, h4⟩ := h2 (Out.fire t [arg]) (List.mem_map.mpr ⟨t, ht, rfl⟩)
+  cases h3
+  exact h4
+
+/-- **`no_double_fire` transferred to kernel runs**: in the LTS state a reachable kernel state stands for, every timer
+process other than `self.proc` that is still alive has an interrupt pending in the URGENT queue. -/
+theorem kernel_run_no_double_fire (auto : Bool) (arg : Int) (cbs : List (Option (CbOp ℚ))) (ctlFirst : Bool) (T : ℚ)
+    (script : List (ℚ × CbOp ℚ)) (hT : 0 < T) (hsc : TimerK.ScriptOK script) (hcbs : TimerK.CbsOK cbs) (fuel : Nat)
+    (s : KState ℚ (TSt ℚ))
+    (hreach : KReach (TimerOnK.body auto arg cbs) (fuel + 1) (TimerOnK.initState ctlFirst T script) s) :
+    ∀ (q : Nat) (st : PStat ℚ), (TimerOnK.absTimer auto arg s).procs[q]? = some st →
+      q ≠ (TimerOnK.absTimer auto arg s).proc → st ≠ PStat.finished → UEv.intr q ∈ (TimerOnK.absTimer auto arg s).uq := by
+  obtain ⟨s0, acts, hc, hr⟩ := timer_on_kernel_refines_lts auto arg cbs ctlFirst T script hT hsc hcbs fuel s hreach
+  have hre : Reachable (TimerOnK.absTimer auto arg s) := (Reachable.create hc).run hr
+  exact (no_double_fire _ hre).1
 
 end C19
